@@ -660,17 +660,17 @@ fn nodup(db: &[Col]) -> bool {
     (0..db.len()).all(|i| (0..i).all(|j| db[i].name != db[j].name))
 }
 
-/// leaf names are pairwise distinct and no flattened struct is empty: the shapes for which the documentation
-/// says what "by name" means
+/// leaf names are pairwise distinct: the shapes for which the documentation says what "by name" means
 fn plain_names(d: &StructD) -> bool {
-    let decl = declared(d);
-    fn no_empty(d: &StructD) -> bool {
-        d.fields.iter().all(|f| match &f.flatten {
-            Some(i) => !f.skip && !i.fields.is_empty() && no_empty(i),
-            None => true,
-        })
-    }
-    nodup(&decl) && no_empty(d)
+    nodup(&declared(d))
+}
+
+/// a non-skipped flattened struct without any active (non-skipped) leaf — the C16-F8 shape
+fn has_inactive_flatten(d: &StructD) -> bool {
+    d.fields.iter().any(|f| match &f.flatten {
+        Some(i) => !f.skip && (declared(i).is_empty() || has_inactive_flatten(i)),
+        None => false,
+    })
 }
 
 /// the ordered flavor accepts only the declared order (names checked): walk the declared non-skipped fields,
@@ -708,7 +708,8 @@ fn oracle_ser(d: &StructD, db: &[Col], vals: &[Leaf], res: &Result<Vec<Leaf>, St
         match res {
             Ok(cells) => {
                 if missing_required {
-                    ctx.fail("serialization succeeded although a required field has no column: its value was silently dropped");
+                    let tag = if has_inactive_flatten(d) { "C16-F8-empty-flattened-struct-hides-missing-columns: " } else { "" };
+                    ctx.fail(format!("{}serialization succeeded although a required field has no column: its value was silently dropped", tag));
                 } else if !expect_ok {
                     ctx.fail("serialization accepted a column list the attributes document as rejected");
                 }
